@@ -350,7 +350,7 @@ def expand(path, seen=None, defs=None):
             continue
         if skip:
             continue
-        if st.startswith('//@@ subsumes '):
+        if st.startswith('//@@ subsumes ') or st.startswith('//@@ verus-args '):
             continue
         if st.startswith('//@@ define '):
             defs.add(st.split()[2])
